@@ -306,9 +306,23 @@ class JsonStub:
     enabled = True
 
 
+_detect_encoding = []
+
+
 def _json_loads_sym(s):
     ctx = Ctx.cur
     from .codecs_model import _pinned
+    if s.kind is bytes:
+        # json.loads(bytes): detect the encoding (instrumented copy of the platform's pure-Python
+        # json.detect_encoding) and decode -- UnicodeDecodeError (a ValueError, but not a JSONDecodeError)
+        # escapes exactly as in the real function; 'surrogatepass' is approximated by strict decoding
+        if not _detect_encoding:
+            _detect_encoding.append(instrument_function(_json.detect_encoding))
+        enc = _detect_encoding[0](s)
+        ctx.flag('approx:json-surrogatepass')
+        s = lift(s).decode(enc)
+        if not isinstance(s, SSeq):
+            return _json.loads(s)
     try:
         vals = _pinned(s)           # content fully determined by the path condition: real json
     except Unmodelled:
